@@ -66,6 +66,10 @@ func globItemsRemote(srcURL, itemRelDirPattern string) ([]string, error) {
 	if len(data) == 0 {
 		return nil, convertRemoteErrNotExist(resp)
 	}
+	if resp.StatusCode != http.StatusOK {
+		// the body is the text of an error (e.g. a malformed pattern), not a list of names
+		return nil, fmt.Errorf("remote server error: %s: %s", resp.Status, strings.TrimSpace(string(data)))
+	}
 
 	var items []string
 	s := bufio.NewScanner(bytes.NewBuffer(data))
@@ -126,6 +130,10 @@ func globFilesRemote(srcURL, relPathPattern string) ([]string, error) {
 
 	if len(data) == 0 {
 		return nil, convertRemoteErrNotExist(resp)
+	}
+	if resp.StatusCode != http.StatusOK {
+		// the body is the text of an error (e.g. a malformed pattern), not a list of names
+		return nil, fmt.Errorf("remote server error: %s: %s", resp.Status, strings.TrimSpace(string(data)))
 	}
 
 	var items []string
